@@ -157,7 +157,17 @@ def judge(ctx: Ctx, fr: Any, before_results: List[Any], before_gt: List[Any]) ->
         dict(info, n_fp_labelled=len(fplab), n_accounted=len(acc_fp), uncounted=len(set(fplab) - set(acc_fp)), extra=len(set(acc_fp) - set(fplab)), dup=len(acc_fp) - len(set(acc_fp))),
         tap,
     )
-    ctx.check(pf.get_num_success() + pf.get_num_fail() == len(tp) + len(fp) + len(fn) + len(tn), "C03/success_fail_counts", info, tap)
+    import warnings
+
+    with warnings.catch_warnings():
+        warnings.simplefilter("ignore")
+        n_fail_old = pf.get_fail_object_num()  # deprecated spelling of get_num_fail()
+    ctx.check(
+        pf.get_num_success() == len(tp) + len(tn) and pf.get_num_fail() == len(fp) + len(fn) and n_fail_old == len(fp) + len(fn),
+        "C03/success_fail_counts",
+        dict(info, success=pf.get_num_success(), fail=pf.get_num_fail(), fail_deprecated=n_fail_old, tp=len(tp), fp=len(fp), fn=len(fn), tn=len(tn)),
+        tap,
+    )
 
     # (c) TP predicate
     cfg = pf.frame_pass_fail_config
